@@ -108,6 +108,37 @@ func genPanic(r *rng, thorough bool, emit func(WaitScenario)) {
 	}
 }
 
+// a batch ITEM whose exec callback panics (sequential batches only: on a pool goroutine a panic ends the process, flyt's and the
+// harness's alike): nothing runs after it — no retry, no fallback, no later item, no post — in stop mode and in continue mode
+func genPanicBatch(r *rng, thorough bool, emit func(WaitScenario)) {
+	t := &tokGen{r: r}
+	reps := 2
+	if thorough {
+		reps = 8
+	}
+	for rep := 0; rep < reps; rep++ {
+		for _, stop := range []bool{true, false} {
+			for _, N := range []int{1, 2, 3} {
+				for n := 1; n <= 4; n++ {
+					cfg := BatchCfg{Budget: N, Wait: 0, Fb: r.pick([]string{"pass", "custom"}), Conc: 0, Stop: stop,
+						ExecS: r.pick([]string{"res", "any"}), HasPost: true, Shape: "results",
+						Build: r.pick([]string{"option", "builder", "mixed", "mixed2", "bare"}), ExecVia: r.pick([]string{"", "", "copt", "cbuilder"})}
+					fs := make([]int, n)
+					for i := range fs {
+						fs[i] = r.intn(N + 1)
+					}
+					sc := waitBatchScenario(t, "canceled", cfg, fs, false, nil, "panic-item")
+					i := r.intn(n)
+					k := r.intn(N) // may lie beyond the item's first success: then the panic is never reached
+					sc.PanicAt, sc.PanicVal = "b"+strconv.Itoa(i)+":"+strconv.Itoa(k), r.pick([]string{"string", "error"})
+					sc.WatchMs = 5000
+					emit(sc)
+				}
+			}
+		}
+	}
+}
+
 func (j *jobList) addWait(sc WaitScenario) {
 	s := sc
 	j.jobs = append(j.jobs, job{fam: "wait", sc: &s, run: func() any { return execWaitScenario(&s) }})
